@@ -278,6 +278,7 @@ def has_fn(ast, name):
     return False
 
 
+FAILS_ANYWAY = [0]
 SLACK = 48      # FrozenDict wrapper: toDict hands out a plain dict, which the model measures as a FrozenDict
 # Several plain dicts can be SUMMED by one check (`[a.toDict(..), b.toDict(..)]`: #list adds up its arguments), each up to
 # 48 + 40 bytes below the model's figure (wrapper + CPython's smaller table for all-string keys), any number of times when
@@ -310,7 +311,19 @@ def evaluate_program(rl, drv, ast, doc, lims, obj_max):
         out, obs = rl.run(text, doc, n, q)
         if out == ('err', 'Timeout'):
             out, obs = rl.run(text, doc, n, q, timeout=8 * TIMEOUT)
-        rows.append((n, q, out, obs, mres[i * step:(i + 1) * step]))
+        mods = mres[i * step:(i + 1) * step]
+        if (i > 0 or (n, q) != (None, -1)) and out[0] == 'err' and out[1] in ('TooLarge', 'Quota') and mods and \
+                all(m is not None and m[0] == 'err' and m[1] not in ('TooLarge', 'Quota') for m in mods):
+            # Both sides end in an exception, the real run in a limit error and the model in another one.  When the program
+            # fails in that other way WITHOUT limits too, the only difference is which of two errors of a lazily evaluated
+            # result comes first (the real finaliser converts - and limits - each element as it is produced, before the next
+            # one is computed; the model drains the sequence first).  C08 is met either way: the evaluation is bounded
+            # and raises.  The row counts as agreeing; `FAILS_ANYWAY` says how often.
+            out0, _ = rl.run(text, doc, None, -1)
+            if out0[0] == 'err' and c04.agree(out0, mods[0]):
+                FAILS_ANYWAY[0] += 1
+                mods = [out] * len(mods)
+        rows.append((n, q, out, obs, mods))
     return text, todict, rows
 
 
@@ -573,6 +586,7 @@ def finish(handle, env, res, hist):
     n_fixed = fixed_battery(env, res, agg['real'], obj_max)
     n_fixed += memorize_battery(env, res, agg['real'], obj_max)
     hist.update(dict(programs=programs, runs=runs, fixed_programs=n_fixed, programs_with_toDict=todict,
+                     limit_error_first_of_two_errors=FAILS_ANYWAY[0],
                      limits_drawn=agg['lim_kind'], real_outcome_by_limit_kind=agg['real'], model_outcome=agg['model'],
                      real_vs_model=agg['pairs'], document_inflation=agg['inflate'],
                      largest_value_seen_bytes=agg['maxsize'], skipped=agg['skipped'], obj_max=obj_max,
